@@ -158,7 +158,7 @@ package dnsserver
 
 // ---- the query handler's decision skeleton (C01, C10, C12, C13, C19) -----------------------------------
 //@ func FBDNSDB.ServeDNSWithRCODE
-//@ updates cnt, nlogged, lastLogged, loggedAt, nlogfailed, nwritten, lastWritten, writtenAt, mut, closes, cached, authQ, authLoc, ansQ, ansCtl, ansType, ansLoc, soaCut, soaLoc, nsCut, nsLoc
+//@ updates cnt, nlogged, lastLogged, loggedAt, nlogfailed, nwritten, lastWritten, writtenAt, mut, closes, cached, authQ, authLoc, ansQ, ansCtl, ansType, ansLoc, rrQ, rrLoc
 // which names are looked up (C01): the zone-cut walk is asked about the query name; a DS query at or below a
 // delegation is asked again about the QUERY NAME without its first label (the parent side of the name itself, not
 // of the cut that was found); answers are searched for the query name inside the cut the walk returned; SOA and NS
@@ -166,8 +166,8 @@ package dnsserver
 //@ after Reader.IsAuthoritative#0 assert[walk-name] authQ == packedQName && authLoc == loc
 //@ after Reader.IsAuthoritative#1 assert[ds-parent] ref(authQ) == ref(packedQName) && off(authQ) == off(packedQName) + packedQName[0] + 1 && len(authQ) == len(packedQName) - packedQName[0] - 1 && authLoc == loc
 //@ after Reader.FindAnswer#0 assert[answer-name] ansQ == packedQName && ansCtl == zoneCut && ansLoc == loc
-//@ after FindSOA#0 assert[soa-cut] soaCut == zoneCut && soaLoc == loc
-//@ after GetNs#0 assert[ns-cut] nsCut == zoneCut && nsLoc == loc
+//@ after FindSOA#0 assert[soa-cut] rrQ == zoneCut && rrLoc == loc
+//@ after GetNs#0 assert[ns-cut] rrQ == zoneCut && rrLoc == loc
 //@ flag skip frame
 //@ requires h.logger != nil && h.stats != nil && w != nil && r != nil
 //@ requires freshzero(cached)
